@@ -675,3 +675,5 @@ class DynamicalAnnealer:
         # note: the coldest and hottest temperatures are kept fixed
         for i in range(1, chain.ntemps - 1):
             chain.betas[i] = 1./(1./chain.betas[i-1] + numpy.exp(self._S[i-1]))
+            # the chain of this temperature has to sample at the new beta
+            chain.chains[i].beta = chain.betas[i]
